@@ -11,6 +11,11 @@ def step (t : List String) : String :=
     | some [d1, m1, y1, d2, m2, y2, nm, cal, conv, bw, at_, eo, rg] =>
       showExcept showDates (schedule (mkDate d1 m1 y1) (mkDate d2 m2 y2) nm cal conv (bw = 1) (at_ = 1) (eo = 1) (rg = 1))
     | _ => "bad-op"
+  | "CDS" :: rest => match ints? rest with
+    | some [d1, m1, y1, d2, m2, y2, nm, cal, conv, bw] =>
+      showExcept (fun r => showDates r.payment ++ " | " ++ showDates r.accrualStart)
+        (cdsDates (mkDate d1 m1 y1) (mkDate d2 m2 y2) nm cal conv (bw = 1))
+    | _ => "bad-op"
   | _ => "bad-op"
 
 def main : IO Unit := loop step
